@@ -171,6 +171,7 @@ func c11Scenarios(thorough bool) []*explore.Scenario {
 	menus := []menu{
 		{"SP", "BIGC", []explore.Op{op(explore.Put, "n1"), op(explore.Put, "n2"), op(explore.Delete, "h0"), op(explore.Put, "m2"), op(explore.Delete, "o0"), op(explore.Put, "n3"), op(explore.Put, "h0")}},
 		{"MS", "BIGC", []explore.Op{op(explore.Put, "n3"), op(explore.Put, "n5"), op(explore.Delete, "mv"), op(explore.Put, "st"), op(explore.Delete, "b4"), op(explore.Put, "n1")}},
+		{"SC", "BIGC", []explore.Op{op(explore.Put, "nA"), op(explore.Put, "nB"), op(explore.Delete, "ov"), op(explore.Put, "nC"), op(explore.Put, "h0")}},
 		{"ML", "BIGC", []explore.Op{op(explore.Put, "n0"), op(explore.Delete, "a0"), op(explore.Put, "co"), op(explore.Put, "n2"), op(explore.Delete, "ao"), op(explore.Put, "b1")}},
 		{"S2", "ROLL", []explore.Op{op(explore.Compact, ""), op(explore.Put, "e"), op(explore.Delete, "a"), op(explore.Put, "n"), op(explore.Put, "d")}},
 		{"CH", "BIGC", []explore.Op{op(explore.Delete, "h0"), op(explore.Put, "x"), op(explore.Put, "o0"), op(explore.Delete, "o1"), op(explore.Put, "y")}},
@@ -195,7 +196,7 @@ func c11Scenarios(thorough bool) []*explore.Scenario {
 		}
 	}
 	// two writers next to the scan (smaller bases only: the interleaving space is the product)
-	for _, m := range menus[3:4] {
+	for _, m := range menus[4:5] {
 		for i, w1 := range m.ops {
 			for j, w2 := range m.ops {
 				if j <= i || (!thorough && (i+j)%2 == 0) {
